@@ -501,6 +501,48 @@ func funcRetention(where string, fd *ast.FuncDecl, typeNames map[string]bool) []
 			return true
 		})
 	}
+	// a struct built by value into a local variable (d := decoder{buf: data}) keeps the view only as long as the
+	// variable lives: the variable becomes a carrier of the view (returning it, storing it or taking its address
+	// is then a site), the literal itself is not one
+	localLit := map[*ast.CompositeLit]bool{}
+	litHasView := func(cl *ast.CompositeLit) bool {
+		for _, el := range cl.Elts {
+			if kv, ok := el.(*ast.KeyValueExpr); ok {
+				if isView(kv.Value) {
+					return true
+				}
+			} else if isView(el) {
+				return true
+			}
+		}
+		return false
+	}
+	ast.Inspect(fd.Body, func(n ast.Node) bool {
+		switch x := n.(type) {
+		case *ast.AssignStmt:
+			for i, lhs := range x.Lhs {
+				if i >= len(x.Rhs) {
+					break
+				}
+				id, ok := lhs.(*ast.Ident)
+				cl, ok2 := x.Rhs[i].(*ast.CompositeLit)
+				if ok && ok2 && litHasView(cl) {
+					localLit[cl] = true
+					alias[id.Name] = true
+				}
+			}
+		case *ast.ValueSpec:
+			for i, id := range x.Names {
+				if i < len(x.Values) {
+					if cl, ok := x.Values[i].(*ast.CompositeLit); ok && litHasView(cl) {
+						localLit[cl] = true
+						alias[id.Name] = true
+					}
+				}
+			}
+		}
+		return true
+	})
 	var sites []string
 	add := func(kind string, e ast.Expr) {
 		var sb strings.Builder
@@ -518,6 +560,16 @@ func funcRetention(where string, fd *ast.FuncDecl, typeNames map[string]bool) []
 	}
 	ast.Inspect(fd.Body, func(n ast.Node) bool {
 		switch x := n.(type) {
+		case *ast.CompositeLit:
+			if localLit[x] {
+				return false
+			}
+		case *ast.UnaryExpr:
+			if x.Op == token.AND && isView(x.X) {
+				if _, isLit := x.X.(*ast.CompositeLit); !isLit {
+					add("takes the address of", x.X)
+				}
+			}
 		case *ast.AssignStmt:
 			for i, lhs := range x.Lhs {
 				if i >= len(x.Rhs) {
